@@ -5,6 +5,7 @@ import Ladim.Model.Vertical
 import Ladim.Model.Grid
 import Ladim.Model.Tracker
 import Ladim.Model.Forcing
+import Ladim.Model.Analytical
 /-
 Line-protocol driver: one JSON request per input line, one JSON response per output line.
 It only *runs* the executable model definitions of `Ladim.Model.*`; it contains no logic of
@@ -358,27 +359,60 @@ def polyVal (c : List Rat) (frac x y : Rat) : Rat :=
   | [c0, cx, cy, ct, cxy, cxx, ctt] => c0 + cx * x + cy * y + ct * frac + cxy * x * y + cxx * x * x + ctt * frac * frac
   | _ => 0
 
+def partJ (q : Part) : Json := Json.arr #[ratJ q.x, ratJ q.y, ratJ q.z, .bool q.alive, .bool q.active]
+
+/-- `Tracker.update` iterated: the grid comes from whole-file arrays + subgrid (`mkGrid`),
+    the forcing is a polynomial oracle, the random/vertical velocities are scripted per step -/
 def opTracker (j : Json) : R Json := do
-  let g ← getGridM (← fld j "grid")
+  let f ← getRomsFile (← fld j "file")
+  let sub ← getSub j
   let cfg : TrkCfg := { scheme := ← getScheme (← fld j "scheme"), dt := ← getRat (← fld j "dt"),
                         vertAdv := ← getBool (← fld j "vertadv"), vertDiff := ← getBool (← fld j "vertdiff") }
   let cu ← getList getRat (← fld j "u")
   let cv ← getList getRat (← fld j "v")
   let vel : VelOracle := fun frac x y => some (polyVal cu frac x y, polyVal cv frac x y)
-  -- particles: [x, y, z, alive, active, du, dv, wdiff, wadv]
-  let ps ← getList (getList getRat) (← fld j "particles")
+  let ps ← getList (getList getRat) (← fld j "particles")      -- [x, y, z, alive, active]
+  let forc ← getList (getList (getList getRat)) (← fld j "forc") -- per step, per particle [du, dv, wd, wa]
+  match mkGrid f sub with
+  | none => pure (errJ .exit1)
+  | some g =>
+    let mut cur : List (Option Part) := ps.map fun p => match p with
+      | [x, y, z, al, ac] => some { x := x, y := y, z := z, alive := al != 0, active := ac != 0 }
+      | _ => none
+    let mut out : Array Json := #[]
+    for stepForc in forc do
+      cur := (cur.zip stepForc).map fun (p, fr) =>
+        match p, fr with
+        | some p, [du, dv, wd, wa] => trackerStep cfg g vel du dv wd wa p
+        | _, _ => none
+      out := out.push (listJ (fun p => match p with | some q => partJ q | none => Json.str "IndexError") cur)
+    pure (.arr out)
+
+/-- C11: the diffusion coefficient arithmetic at `Float` -/
+def opDiffDisp (j : Json) : R Json := do
+  let cases ← getList (getList getFloat) (← fld j "cases")   -- [D, dt, dx, xi]
+  pure (listJ (fun c => match c with
+    | [D, dt, dx, xi] => Json.arr #[floatJ (diffVel D dt xi), floatJ (diffDisp D dt dx xi)]
+    | _ => .null) cases)
+
+/-- C01: `analytical.get_velocity1/2/4` on a polynomial `sample_func` -/
+def opAnalytical (j : Json) : R Json := do
+  let cu ← getList getRat (← fld j "u")
+  let cv ← getList getRat (← fld j "v")
+  let f : SampleFn := fun x y => (polyVal cu 0 x y, polyVal cv 0 x y)
+  let dt ← getRat (← fld j "dt")
+  let s ← getRat (← fld j "s")
+  let pts ← getList (getList getRat) (← fld j "points")
+  let pr (r : Rat × Rat) : Json := Json.arr #[ratJ r.1, ratJ r.2]
   pure (listJ (fun p => match p with
-    | [x, y, z, al, ac, du, dv, wd, wa] =>
-      (match trackerStep cfg g vel du dv wd wa { x := x, y := y, z := z, alive := al != 0, active := ac != 0 } with
-       | some q => Json.arr #[ratJ q.x, ratJ q.y, ratJ q.z, .bool q.alive, .bool q.active]
-       | none => .str "IndexError")
-    | _ => .null) ps)
+    | [x, y] => Json.arr #[pr (getVelocity1 f x y), pr (getVelocity2 f x y dt s), pr (getVelocity4 f x y dt)]
+    | _ => .null) pts)
 
 def handlers : List (String × (Json → R Json)) :=
   [("tk", opTk), ("period", opPeriod), ("state", opState), ("outrun", opOutRun), ("genname", opGenName),
    ("forcing", opForcing), ("z2s", opZ2s), ("sdepth", opSdepth), ("sstretch", opSstretch),
    ("sample", opSample), ("grid", opGrid), ("sample2d", opSample2D), ("bilininv", opBilinInv),
-   ("tracker", opTracker), ("roms_sample", opRomsSample)]
+   ("tracker", opTracker), ("roms_sample", opRomsSample), ("diffdisp", opDiffDisp), ("analytical", opAnalytical)]
 
 def handle (line : String) : String :=
   match Json.parse line with
